@@ -568,7 +568,7 @@ def check_c17(tier, seed):
     acc.extra["history_half"] = {"runs": acc.n}
     # schedule half: insert || drop || re-create under seeded schedules, then (half of the runs) a crash
     cacc = ConcAcc("C17", tier, seed, ["not_linearizable", "recovered_not_linearizable", "deadlock", "not_a_set", "reopen_failed_after_crash", "observe_failed",
-                                       "post:restart_differs_facts", "post:reopen_failed"], "exploration")
+                                       "post:restart_differs_facts", "post:restart_differs_rules", "post:restart_differs_schemas", "post:reopen_failed"], "exploration")
     conc_batch(cacc, [("c17b", 450 if tier == "quick" else 5000)], seed, crash_share_num=1, crash_share_den=2,
                interesting=("unlink", "rmdir", "kg-metadata", "shard-meta", "wal"))
     cacc.conc_extra()
@@ -824,7 +824,8 @@ def check_c15(tier, seed):
     oracles = ["not_linearizable", "recovered_not_linearizable", "deadlock", "not_a_set", "reopen_failed_after_crash", "observe_failed", "open_failed",
                "acked_update_lost", "stale_update_resurfaced", "phantom_update", "reopened:acked_update_lost", "reopened:stale_update_resurfaced", "reopened:phantom_update",
                "recovered:acked_update_lost", "recovered:stale_update_resurfaced", "recovered:phantom_update", "recovered2:acked_update_lost",
-               "recovered2:stale_update_resurfaced", "recovered2:phantom_update", "reopen_failed", "post:reopen_failed", "post:restart_differs_facts", "post:op_failed"]
+               "recovered2:stale_update_resurfaced", "recovered2:phantom_update", "reopen_failed", "post:reopen_failed", "post:restart_differs_facts", "post:restart_differs_rules",
+               "post:restart_differs_schemas", "post:op_failed"]
     acc = ConcAcc("C15", tier, seed, oracles, "exploration")
     n = 800 if tier == "quick" else 9000
     conc_batch(acc, [("c15p", n), ("c15e", n)], seed)
@@ -839,7 +840,7 @@ def check_c15(tier, seed):
 
 
 def check_c19(tier, seed):
-    oracles = ["not_linearizable", "deadlock", "not_a_set", "observe_failed", "open_failed", "panic", "harness"]
+    oracles = ["not_linearizable", "deadlock", "not_a_set", "observe_failed", "open_failed", "panic", "harness", "post:restart_differs_facts", "post:reopen_failed"]
     acc = ConcAcc("C19", tier, seed, oracles, "exploration")
     n = 700 if tier == "quick" else 8000
     conc_batch(acc, [("c19b", n)], seed, crash_share_num=0)
@@ -876,7 +877,7 @@ def check_c19(tier, seed):
 
 
 def check_c20(tier, seed):
-    oracles = ["not_linearizable", "deadlock", "not_a_set", "observe_failed", "open_failed"]
+    oracles = ["not_linearizable", "deadlock", "not_a_set", "observe_failed", "open_failed", "post:restart_differs_facts", "post:restart_differs_rules", "post:reopen_failed"]
     acc = ConcAcc("C20", tier, seed, oracles, "exploration")
     n = 1800 if tier == "quick" else 18000
     nh = 1200 if tier == "quick" else 12000
